@@ -1984,6 +1984,10 @@ fn injections(cfg: &Cfg) -> Vec<(&'static str, Vec<Step>, String)> {
                     v.push(("num", app_path(a, &["policy", "trigger", "limit"]), "I-5".into()));
                     v.push(("typ", app_path(a, &["policy", "trigger", "limit"]), "B1".into()));
                     v.push(("typ", app_path(a, &["policy", "trigger", "limit"]), st("10 parsecs")));
+                    // string forms whose product does not fit u64: rejected, never wrapped or truncated
+                    v.push(("num", app_path(a, &["policy", "trigger", "limit"]), st("16777216 tb")));
+                    v.push(("num", app_path(a, &["policy", "trigger", "limit"]), st("18014398509481984 kb")));
+                    v.push(("num", app_path(a, &["policy", "trigger", "limit"]), st("18446744073709551616")));
                     v.push(("miss", app_path(a, &["policy", "trigger", "limit"]), "X".into()));
                 }
                 Trig::Time(_, m, _) => {
